@@ -8,6 +8,9 @@ import time
 
 from checks import common
 
+# this check never reads lean/MjProof/Gen: no generated-code lock needed
+USES_GEN = False
+
 META = {
     "technique": "Lean 4 proof over the reals (sum-of-squares positivity of J = U U^T, explicit 4x4 reverse Cholesky inverts it, "
                  "trace identity in orthonormal frames) + floating-point differential correspondence of the same generic model "
